@@ -12,6 +12,7 @@ EXTENDS Naturals, Sequences, FiniteSets, TLC
 
 Lit(ch) == [t |-> "c", c |-> ch]
 Any1    == [t |-> "1"]
+NonDig  == [t |-> "D"]      \* rendered \D in a regular expression (an upper-case escape), ? as a wildcard
 AnyN    == [t |-> "n"]
 
 LowerTable == [A |-> "a", B |-> "b", C |-> "c", D |-> "d", E |-> "e", T |-> "t", M |-> "m", L |-> "l", N |-> "n"]
@@ -26,6 +27,7 @@ Matches(v, p, isCase) ==
     ELSE LET h == Head(p) IN
          CASE h.t = "c" -> v # <<>> /\ SameCh(Head(v), h.c, isCase) /\ Matches(Tail(v), Tail(p), isCase)
            [] h.t = "1" -> v # <<>> /\ Matches(Tail(v), Tail(p), isCase)
+           [] h.t = "D" -> v # <<>> /\ Matches(Tail(v), Tail(p), isCase)     \* one non-digit character (all alphabet characters are letters)
            [] h.t = "n" -> Matches(v, Tail(p), isCase) \/ (v # <<>> /\ Matches(Tail(v), p, isCase))
 
 (* patterns derived from a value: exact, case-swapped, first character + *, one character replaced by ? *)
@@ -33,6 +35,7 @@ Exact(v)    == [j \in DOMAIN v |-> Lit(v[j])]
 Swapped(v)  == [j \in DOMAIN v |-> Lit(SwapCh(v[j]))]
 Prefix(v)   == IF v = <<>> THEN <<AnyN>> ELSE <<Lit(v[1]), AnyN>>
 Holes(v)    == {[j \in DOMAIN v |-> IF j = k THEN Any1 ELSE Lit(v[j])] : k \in DOMAIN v}
+               \cup {[j \in DOMAIN v |-> IF j = 1 THEN NonDig ELSE Lit(v[j])]}
 PatternsFrom(V) == {<<AnyN>>} \cup UNION {{Exact(v), Swapped(v), Prefix(v)} \cup Holes(v) : v \in V}
 
 (* the callback filter used by the checks: elements with an odd id *)
